@@ -100,7 +100,7 @@ def split_item(text):
     return text[:pre_end], text[pre_end:bo], text[bo:]
 
 
-def rule_R2(prefix, log, keep_derive=True):
+def rule_R2(prefix, log, keep_derive=True, keep_names=None):
     """drop docs and attributes in the item prefix; keep a filtered #[derive] (Clone/Copy/PartialEq/Eq)"""
     toks = tokenize(prefix)
     out = []
@@ -117,7 +117,7 @@ def rule_R2(prefix, log, keep_derive=True):
             m2 = re.match(r'#\[derive\((.*)\)\]$', attr)
             if m2 and keep_derive:
                 names = [x.strip() for x in m2.group(1).split(',') if x.strip()]
-                kept = [x for x in names if x.split('::')[-1] in KEEP_DERIVES]
+                kept = [x for x in names if x.split('::')[-1] in (keep_names if keep_names is not None else KEEP_DERIVES)]
                 dropped = [x for x in names if x not in kept]
                 if dropped:
                     log.append({'rule': 'R2', 'dropped': 'derive(' + ','.join(dropped) + ')'})
@@ -550,6 +550,8 @@ class Extract:
         self.closures = {}
         self.lift = None
         self.novac = False
+        self.derive = None
+        self.attrs = []
 
 
 def parse_template(path):
@@ -658,6 +660,12 @@ def parse_template(path):
                 cur.lift = (int(m.group(1)), m.group(2))
             elif key == 'novac':
                 cur.novac = True
+            elif key == 'derive':
+                cur.derive = val.split()
+            elif key == 'attr':
+                if not val.startswith('#[verifier::'):
+                    raise Undecided('%s: attr must be a #[verifier::..] attribute: %r' % (origin, ln))
+                cur.attrs.append(val)
             else:
                 raise Undecided('%s: unknown directive %r' % (origin, ln))
 
@@ -691,7 +699,7 @@ def render_extract(ex, vac=False, strip_proof=False):
     meta = {'file': ex.file, 'path': ' :: '.join(ex.path), 'line': line0, 'sha256': sha[:16], 'kind': item.kind}
     prefix, header, body = split_item(text)
     if 'R2' in ex.rules:
-        prefix = rule_R2(prefix, log)
+        prefix = rule_R2(prefix, log, keep_names=ex.derive)
     if item.kind in ('struct', 'enum'):
         whole = header + (body or '')
         if 'R2' in ex.rules:
@@ -848,6 +856,9 @@ def render_extract(ex, vac=False, strip_proof=False):
     meta['degraded'] = degraded
     meta['name'] = (ex.rename or name)
     hdr = header.rstrip()
+    if ex.attrs:
+        prefix = prefix + ''.join(a + '\n' for a in ex.attrs)
+        log.append({'rule': 'R7', 'attrs': ex.attrs})
     return prefix + hdr + ctext + (' ' if not ctext else '') + body + '\n', log, meta
 
 
